@@ -254,10 +254,11 @@ Verdict(P, mode) ==
   IN [ok |-> ok,
       files |-> [n \in {P.files[i].name \o ".abra" : i \in DOMAIN P.files} |->
                    E.sts[CHOOSE i \in DOMAIN P.files : P.files[i].name \o ".abra" = n].lines],
-      expect |-> IF ok THEN [compile |-> "ok", status |-> "done", out |-> E.sts[1].out]
-                 ELSE [compile |-> "diag",
-                       unresolved |-> unres,
-                       clash |-> {ClashMsg(n) : n \in clashes}],
+      \* a program with diagnostics is observed through the editor analysis (harness mode "lsp": the list of
+      \* diagnostics with message, file and byte range), a clean one is compiled and run
+      mode |-> IF ok THEN "run" ELSE "lsp",
+      expect |-> IF ok THEN [compile |-> "ok", status |-> "done", out |-> E.sts[1].out] ELSE [lsp |-> "ok"],
+      expect_diags |-> [unresolved |-> unres, clash |-> {ClashMsg(n) : n \in clashes}],
       ignore |-> undet,
       tags |-> [i \in DOMAIN P.files |-> IF i \in L THEN E.sts[i].tags ELSE <<>>],
       nclash |-> Cardinality(clashes), nunres |-> Cardinality(unres),
